@@ -36,6 +36,8 @@ DBL_EDGE = [dbits(x) for x in [0.0, -0.0, 0.5, -0.5, 0.999, -0.999, 1.0, -1.0, 2
 TWO63 = dbits(9223372036854775808.0)
 TWO64 = dbits(18446744073709551616.0)
 UTF8 = ['ä', 'ö€', '\U0001F600', '日本', 'µ']
+# construction routes of a writeCells request in harness/drv_C15.cpp (build_cells)
+ROUTES = ['brace', 'assign', 'presized', 'reverse', 'rotate', 'swap', 'erase', 'insert', 'copy', 'move']
 
 
 def hexs(b):
@@ -164,11 +166,14 @@ class Shadow:
         r = self.r
         cs = r.sample(range(len(self.cols)), r.randint(1, min(4, len(self.cols))))
         row = self.row()
-        if r.random() < 0.5:
-            return 'wcells_n %d %d %s' % (row, len(cs), ' '.join('%s %s' % (hexs(self.cols[c][0]), self.value_for(c, r.random() < foreign)) for c in cs))
-        if len(cs) == 1 and r.random() < 0.5:
+        # how the harness puts the std::vector<Cell> together (the request itself is the same list of cells)
+        route = r.choice(ROUTES)
+        sfx = '' if route == 'brace' and r.random() < 0.5 else ':' + route
+        if r.random() < 0.4:
+            return 'wcells_n%s %d %d %s' % (sfx, row, len(cs), ' '.join('%s %s' % (hexs(self.cols[c][0]), self.value_for(c, r.random() < foreign)) for c in cs))
+        if len(cs) == 1 and r.random() < 0.3:
             return 'wcell %d %d %s' % (row, cs[0], self.value_for(cs[0], r.random() < foreign))
-        return 'wcells_i %d %d %s' % (row, len(cs), ' '.join('%d %s' % (c, self.value_for(c, r.random() < foreign)) for c in cs))
+        return 'wcells_i%s %d %d %s' % (sfx, row, len(cs), ' '.join('%d %s' % (c, self.value_for(c, r.random() < foreign)) for c in cs))
 
     def elt_for_write(self, c, foreign):
         t = self.cols[c][2]
@@ -319,7 +324,7 @@ class C15(Prop):
     technique = 'Coq refinement proof (row-list model vs. pointwise log specification) + history correspondence on real files'
     nontrivial_rule = ('a case is one history on a fresh file: createDataFrame with 1..8 columns over Bool/Int32/UInt32/Int64/UInt64/'
                        'Double/String (distinct names incl. UTF-8, blanks, "/"), then 8..30 steps of rows(n) (grow, shrink, 0, same), '
-                       'writeRow (full / partial), writeCells by name / by index, writeCell, writeColumn by name / index (offset, count, '
+                       'writeRow (full / partial), writeCells by name / by index (the std::vector<Cell> built through ten C++ construction routes: fresh, assigned, pre-sized, reversed, rotated, swapped, erased, inserted, copied, moved; returned Cells are copied, moved and assigned before they are printed), writeCell, writeColumn by name / index (offset, count, '
                        'count 0, empty vector), each followed by reads through a random one of the three paths (readColumn with resize '
                        'on/off, offset, explicit count, smaller and larger caller vectors), reopen ro|rw, and a final dump of every row, '
                        'every column and every cell of one row; ~15 % of the written values are of another convertible type (integer '
@@ -420,6 +425,22 @@ class C15(Prop):
             cases.append(Case(['new 1 %s s: String' % hexs('s'), 'rows 2', rd, 'nrows'], 'string-unwritten'))
         cases.append(Case(['new 2 %s s: Int32 %s s: String' % (hexs('a'), hexs('s')), 'rows 2', 'wcell 0 0 i32:5', 'rcell_i 0 0',
                            'rcol_i 0 Int32 1 0 0', 'rrow 0'], 'string-unwritten'))
+        # every construction route of a writeCells request (fresh, assigned, pre-sized, reversed, rotated, swapped, erased,
+        # inserted, copied, moved Cells), index- and name-addressed, with column indices other than 0 and in non-ascending order
+        a, b, c, d = hexs('a'), hexs('b'), hexs('c'), hexs('d')
+        for route in ROUTES:
+            L = ['new 4 %s s: Int64 %s %s Int32 %s %s Double %s s: UInt32' % (a, b, hexs('mV'), c, hexs('s'), d), 'rows 4',
+                 'wrow 0 4 i64:100 i32:10 d:3ff8000000000000 u32:7',
+                 'wcells_i:%s 1 1 2 d:4004000000000000' % route, 'rrow 1',
+                 'wcells_i:%s 1 1 1 i32:20' % route, 'rrow 1',
+                 'wcells_i:%s 2 3 3 u32:9 0 i64:-7 2 d:bfe0000000000000' % route, 'rrow 2',
+                 'wcells_i:%s 3 2 2 d:400e000000000000 0 i64:3000' % route, 'rrow 3',
+                 'wcells_n:%s 3 3 %s u32:5 %s i32:-4 %s i64:1' % (route, d, b, a), 'rrow 3',
+                 'wcells_i:%s 0 4 3 u32:1 2 d:3ff0000000000000 1 i32:2 0 i64:3' % route, 'rrow 0',
+                 'rcells 2 4 %s %s %s %s' % (d, c, b, a), 'rcells 3 3 %s %s %s' % (b, d, a),
+                 'rcol_i 0 Int64 1 0 0', 'rcol_i 1 Int32 1 0 0', 'rcol_i 2 Double 1 0 0', 'rcol_i 3 UInt32 1 0 0',
+                 'reopen ro', 'rrow 1', 'rrow 2', 'rrow 3']
+            cases.append(Case(L, 'cell-routes'))
         # 2. schemas 1..8: random histories
         for i in range(1200 * mult):
             ncols = 1 + i % 8
